@@ -203,6 +203,55 @@ impl World {
         }
     }
 
+    /// Lost wake-ups: at quiescence nothing is in flight, so a task that is parked must be
+    /// genuinely waiting. Polling it once more (a spurious wake-up) must therefore change nothing: if
+    /// the poll completes the task, wakes another task or makes the broker do something, a wake-up
+    /// that should have happened did not.
+    fn probe_lost_wakeups(&mut self) {
+        let mut parked = Vec::new();
+        self.exec.parked_tasks(&mut parked);
+        let mut ready = Vec::new();
+        for t in parked {
+            let info = self.tasks.iter().find(|(id, _)| *id == t).map(|(_, i)| i.clone());
+            if let Some(i) = &info {
+                if i.in_cancel.get() > 0 {
+                    continue;
+                }
+            }
+            let what = info.as_ref().and_then(|i| i.blocked.get()).map(|b| b.0).unwrap_or("(runtime task)");
+            let ops_before = self.log.borrow().ops_done;
+            let bsteps = self.stats.broker_steps;
+            let outcome = self.exec.poll(t);
+            self.drain_spawner();
+            self.process_tap();
+            self.exec.ready_tasks(&mut ready);
+            let name = self.exec.name(t).to_string();
+            match outcome {
+                PollOutcome::Panicked(info) => {
+                    self.on_panic(&format!("task '{name}' (poll at quiescence)"), info);
+                    return;
+                }
+                PollOutcome::Done => {}
+                PollOutcome::Pending => {
+                    let progressed = !ready.is_empty()
+                        || self.stats.broker_steps != bsteps
+                        || self.log.borrow().ops_done != ops_before
+                        || info.as_ref().is_some_and(|i| i.blocked.get().map(|b| b.0) != Some(what) && what != "(runtime task)");
+                    if !progressed {
+                        continue;
+                    }
+                }
+            }
+            self.violate(Violation::new(
+                "liveness.lost-wakeup",
+                &[Prop::C06, Prop::C15, Prop::C05, Prop::C19],
+                format!("at quiescence task '{name}' was parked in {what}, yet polling it once more made progress: the event it waited for had happened without waking it"),
+            ));
+            return;
+        }
+        self.log.borrow_mut().probe("lost-wakeup-probe-evaluated");
+    }
+
     /// A caller that dropped its `PendingReply` (protocol >= 1.16) must have told the broker: at
     /// quiescence such a call is either gone or marked aborted in the broker.
     fn check_aborts(&mut self) {
@@ -737,8 +786,11 @@ pub fn api_harness(spec: &RunSpec) -> RunOutput {
             log.borrow_mut().tr(|| format!("quiescent; stage {stage}"));
             match stage {
                 1 => {
-                    w.check_blocked(false);
-                    w.check_aborts();
+                    w.probe_lost_wakeups();
+                    if w.violations.is_empty() {
+                        w.check_blocked(false);
+                        w.check_aborts();
+                    }
                     // The view checks call into the discoverers and lifetimes synchronously.
                     if let Err(info) = crate::exec::catch(|| w.check_views()) {
                         w.on_panic("polling a discoverer or lifetime", info);
